@@ -282,6 +282,22 @@ fn align3(rng: &mut Rng) {
     let disp = about(rng, amax, dmax);
     let moved: Vec<Point3> = pts.iter().map(|p| disp * p).collect();
     let initial = if rng.chance(0.5) { Iso3::identity() } else { about(rng, amax * 0.3, dmax * 0.3) };
+    // "any starting guess in the basin": the part may lie in its fixture in a nominal pose far from the
+    // reference frame (right-angle turns, pitch of +-90 degrees, anything), that pose being handed over as
+    // the starting guess; relative to it the displacement is the same small one
+    let nominal: Iso3 = {
+        use std::f64::consts::FRAC_PI_2;
+        let q = |ax: usize, a: f64| parry3d_f64::na::UnitQuaternion::from_axis_angle(&[Vector3::x_axis(), Vector3::y_axis(), Vector3::z_axis()][ax], a);
+        let tr = Vector3::new(rng.range(-1.0, 1.0), rng.range(-1.0, 1.0), rng.range(-1.0, 1.0)) * size;
+        match rng.below(6) {
+            0 => Iso3::from_parts(tr.into(), q(0, rng.range(-3.1, 3.1)) * q(1, if rng.chance(0.5) { FRAC_PI_2 } else { -FRAC_PI_2 }) * q(2, rng.range(-3.1, 3.1))),
+            1 => Iso3::from_parts(tr.into(), q(rng.below(3), FRAC_PI_2 * rng.int(-2, 2) as f64) * q(rng.below(3), FRAC_PI_2 * rng.int(-2, 2) as f64) * q(rng.below(3), FRAC_PI_2 * rng.int(-2, 2) as f64)),
+            2 => gen::iso3(rng, size),
+            _ => Iso3::identity(),
+        }
+    };
+    let moved: Vec<Point3> = moved.iter().map(|p| nominal.inverse() * p).collect();
+    let initial = initial * nominal;
     let _ = take_trace3();
     let res = guarded(|| points_to_mesh(&moved, &mesh, &initial, mode_of(plane)).map_err(|e| e.to_string()));
     let trace = take_trace3();
